@@ -172,7 +172,7 @@ func TestHelperCase(t *testing.T) {
 	if err := json.Unmarshal([]byte(js), &c); err != nil {
 		t.Fatal(err)
 	}
-	alarm(120) // never outlive the parent by much
+	time.AfterFunc(2*time.Minute, func() { os.Exit(4) }) // never outlive the parent by much
 	onHeartbeat = func() { fmt.Println("C07-HELPER heartbeat") }
 	r := runCase(&c)
 	b, _ := json.Marshal(r)
